@@ -226,6 +226,113 @@ func tablesDumpCmd(args []string) int {
 			"syscalls": strs(n["syscalls"]), "has_fields": len(strs(n["has_fields"])), "action": fmt.Sprint(n["action"])})
 		stats["normalizations"]++
 	}
+	// ---- selection, dynamically: every entry's events in several orders -----------------------------------------
+	// An event is built so that exactly one entry of the table applies to it (its record type or syscall, all of
+	// that entry's has_fields and no has_fields of a rival entry).  The whole list is coalesced forwards, backwards
+	// and shuffled: what an event selects must be the table's entry every time.
+	type selCase struct {
+		what, want string
+		specs      []recSpec
+	}
+	var sel []selCase
+	rivals := map[string][]int{} // record type -> entries naming it
+	for i, n := range doc.Normalizations {
+		for _, rt := range strs(n["record_types"]) {
+			rivals[rt] = append(rivals[rt], i)
+		}
+	}
+	srng := newRand(1, 20)
+	for i, n := range doc.Normalizations {
+		action := ""
+		if n["action"] != nil {
+			action = fmt.Sprint(n["action"])
+		}
+		for _, rt := range strs(n["record_types"]) {
+			t, err := auparse.GetAuditMessageType(rt)
+			if err != nil {
+				continue
+			}
+			mine := strs(n["has_fields"])
+			clash := false
+			for _, j := range rivals[rt] {
+				if j == i {
+					continue
+				}
+				theirs := strs(doc.Normalizations[j]["has_fields"])
+				// a rival without has_fields, or whose has_fields are all among mine, applies as well: no unique answer
+				sub := true
+				for _, f := range theirs {
+					found := false
+					for _, g := range mine {
+						found = found || f == g
+					}
+					sub = sub && found
+				}
+				clash = clash || sub
+			}
+			if clash {
+				continue
+			}
+			body := "pid=1 uid=0 auid=1000 ses=1 msg='op=x"
+			for _, f := range mine {
+				body += " " + f + "=zz"
+			}
+			body += " res=success'"
+			sel = append(sel, selCase{rt + "/" + strings.Join(mine, "+"), action, []recSpec{{int(t), body}}})
+		}
+		scs := strs(n["syscalls"])
+		for k := 0; k < len(scs) && k < 3; k++ {
+			sc := scs[srng.Intn(len(scs))]
+			num := -1
+			for nr, name := range auparse.AuditSyscalls["x86_64"] {
+				if name == sc {
+					num = nr
+				}
+			}
+			if num < 0 {
+				continue
+			}
+			sel = append(sel, selCase{"syscall " + sc, action, []recSpec{{1300, fmt.Sprintf(
+				`arch=c000003e syscall=%d success=yes exit=0 a0=1 a1=2 a2=3 a3=4 items=0 ppid=1 pid=2 auid=1000 uid=0 gid=0 tty=pts0 ses=1 comm="x" exe="/bin/x" key=(null)`, num)}}})
+		}
+	}
+	orders := [][]int{}
+	fwd := make([]int, len(sel))
+	for i := range fwd {
+		fwd[i] = i
+	}
+	rev := make([]int, len(sel))
+	for i := range rev {
+		rev[i] = len(sel) - 1 - i
+	}
+	orders = append(orders, fwd, rev)
+	for k := 0; k < 4; k++ {
+		sh := append([]int(nil), fwd...)
+		srng.Shuffle(len(sh), func(i, j int) { sh[i], sh[j] = sh[j], sh[i] })
+		orders = append(orders, sh)
+	}
+	for oi, order := range orders {
+		for _, ci := range order {
+			c := sel[ci]
+			msgs := mkMsgs(c.specs, 1490137971, 11, uint32(ci+1))
+			if len(msgs) != len(c.specs) {
+				continue
+			}
+			if _, err := msgs[0].Data(); err != nil {
+				continue // this record type needs fields of its own to parse
+			}
+			got := "<error>"
+			func() {
+				defer func() { recover() }()
+				if ev, err := aucoalesce.CoalesceMessages(msgs); err == nil && ev != nil {
+					got = ev.Summary.Action
+				}
+			}()
+			trace++
+			w.write(map[string]interface{}{"k": "select", "trace": trace, "what": c.what, "order": oi, "want": c.want, "got": got})
+			stats["selections"]++
+		}
+	}
 	w.write(map[string]interface{}{"k": "end"})
 	w.close()
 	printJSON(map[string]interface{}{"stats": stats})
